@@ -100,12 +100,12 @@ PROPS = {
                      'after the call (md5) is compared with the Gallina encoder, the harness states whether buffer[size..] still holds the pre-filled bytes (monitor_C14_tail) and whether encoding into the byte-inverted buffer gives the same outcome and bytes (monitor_C14_indep); messages of typed attribute values of all kinds (nested / padded encoders over-represented) into every buffer length 0..needed+4; distinct = distinct records; non-trivial = at least one attribute',
                 assumptions=['value encoders of the kinds used write exactly their value after checking the room (checked by the correspondence)']),
     'C15': dict(suites=['agent'], monitors=['C15'], rule=AGENT_RULE + '; one history in ten is a long send/response sequence (20-150 transactions, response delays 1 ms .. 3 s, the next request placed exactly 600 s, 600 s -1/+1 ns after the previous SEND, inside and at the end of the previous request retransmission window + 600 s, and 1300 s later)', assumptions=AGENT_ASSUME),
-    'C19': dict(suites=['valueapi'], monitors=['C19clone', 'C19api'],
+    'C19': dict(suites=['valueapi', 'attrval'], monitors=['C19clone', 'C19api', 'C19acc'],
                 rule='suite valueapi: scripts of 3-9 operations over {new, clone, add through either copy, read} on PasswordAlgorithms and UnknownAttributes with up to 6 bindings, '
                      'compared with the reference-counted heap model and with value semantics; sweeps under catch_unwind of the public constructors / accessors / conversions: all u16 '
                      'for MessageType / MessageMethod / AlgorithmId / ErrorCode / turn integer types, all u8 for classes and families, ~3000 strings over ASCII, multi-byte, Unicode white space / combining / compatibility / zero-width characters, quoting, '
                      'cookie-prefix and boundary-length (507..510, 762..764, 64000, 64001) alphabets for every string constructor and key derivation; distinct = distinct records; '
-                     'non-trivial = scripts with a clone, and every API sweep',
+                     'non-trivial = scripts with a clone, and every API sweep; reads go through every access path (iter, slice accessor, consuming iterator over a clone); suite attrval: every public accessor of every DECODED value (valid, mutated and random wire values of all 38 kinds) and of its clone is called under catch_unwind',
                 assumptions=['Arc is a hand-written model (reference-counted heap); documented panicking accessors (expect_*) are not called on mismatching variants']),
     'C01': dict(suites=['codecrt', 'attrval', 'wire'], monitors=['C01'],
                 rule='suite codecrt: messages of 0-12 attributes over all 35 value-carrying kinds (values from the per-kind generators: boundary lengths 0/1/508/509, all lengths mod 4, '
